@@ -346,6 +346,27 @@ class AstInfo:
                 )
                 if child_lineno not in self.module.no_cover_lines
             )
+            or any(
+                scope_line_range(definition_node)[0] in self.module.only_cover_lines
+                for definition_node in self._enclosing_definitions()
+            )
+        )
+
+    def _enclosing_definitions(self) -> Iterable[_ast.AST]:
+        """Provide the functions and classes that contain self (and self).
+
+        Returns:
+            The definitions whose range contains the first line of self.
+        """
+        start_line = scope_line_range(self.ast)[0]
+        return (
+            definition_node
+            for definition_node in nodes_of_class(
+                self.module.module_ast, (ast.FunctionDef, ast.AsyncFunctionDef, ast.ClassDef)
+            )
+            if scope_line_range(definition_node)[0]
+            <= start_line
+            <= scope_line_range(definition_node)[1]
         )
 
     @staticmethod
@@ -410,12 +431,7 @@ class AstInfo:
         start_line = scope_line_range(self.ast)[0]
         return self._in_cover(start_line) and all(
             self._in_cover(scope_line_range(definition_node)[0])
-            for definition_node in nodes_of_class(
-                self.module.module_ast, (ast.FunctionDef, ast.AsyncFunctionDef, ast.ClassDef)
-            )
-            if scope_line_range(definition_node)[0]
-            <= start_line
-            <= scope_line_range(definition_node)[1]
+            for definition_node in self._enclosing_definitions()
         )
 
     def should_cover_line(self, lineno: int) -> bool:
